@@ -7,6 +7,7 @@ package main
 import (
 	"fmt"
 	"go/ast"
+	"go/constant"
 	"go/token"
 	"go/types"
 	"math"
@@ -847,4 +848,406 @@ func ruleNoNewSharedPackageState(c *Ctx) {
 		}
 	}
 	c.Floor(rule, "server packages", "package-level variables examined", nVars, 20)
+}
+
+// R10.5 — the ticks decoder uses the ticks for every supported timeframe: GetTimeFromTicks is
+// evaluated once per entry of the timeframe table (intervalsPerDay = Day / timeframe; edges whose
+// condition is false under that value are pruned) and every reachable return must depend on the
+// intervalTicks parameter. A guard such as `intervalsPerDay <= 1` that is meant for "longer than a
+// day" also swallows the supported daily timeframe: all ticks of a day decode to midnight.
+func ruleDecoderUsesTicksForEveryTimeframe(c *Ctx) {
+	const rule = "R10.5"
+	s := c.S(rule, "executor.GetTimeFromTicks")
+	if s == nil {
+		return
+	}
+	info := s.Info
+	sig := s.Fn.Obj.Type().(*types.Signature)
+	if sig.Params().Len() < 3 {
+		c.Undecided(rule, s.Name, "signature", "GetTimeFromTicks(intervalStart, intervalsPerDay, intervalTicks) expected")
+		return
+	}
+	ipd, ticks := paramObjC(s.Fn, 1), paramObjC(s.Fn, 2)
+	// the supported timeframes: utils.Timeframes (durations are constants)
+	init0, pk := c.P.pkgVarInit("utils", "Timeframes")
+	var vals []int64
+	if cl, ok := unparen(init0).(*ast.CompositeLit); ok && pk != nil {
+		for _, el := range cl.Elts {
+			e, ok := el.(*ast.CompositeLit)
+			if !ok || len(e.Elts) < 2 {
+				continue
+			}
+			d := e.Elts[1]
+			if kv, ok := d.(*ast.KeyValueExpr); ok {
+				d = kv.Value
+			}
+			if v, ok := constInt(pk.TypesInfo, d); ok && v > 0 {
+				vals = append(vals, int64(24*3600*1e9)/v)
+			}
+		}
+	}
+	if len(vals) < 5 {
+		c.Undecided(rule, "utils.Timeframes", "timeframe-table", "could not read the durations of utils.Timeframes")
+		return
+	}
+	// does an expression depend on the ticks parameter (through local definitions)?
+	var dependsOn func(e ast.Node, depth int, seen map[types.Object]bool) bool
+	dependsOn = func(e ast.Node, depth int, seen map[types.Object]bool) bool {
+		if e == nil || depth > 6 {
+			return false
+		}
+		dep := false
+		walkAll(e, func(m ast.Node) bool {
+			id, ok := m.(*ast.Ident)
+			if !ok || dep {
+				return !dep
+			}
+			o := objOf(info, id)
+			if o == nil || seen[o] {
+				return true
+			}
+			if o == ticks {
+				dep = true
+				return false
+			}
+			seen[o] = true
+			s.walk(func(d ast.Node) bool {
+				if as, ok := d.(*ast.AssignStmt); ok {
+					for i, l := range as.Lhs {
+						if identObj(info, l) == o {
+							if len(as.Rhs) == len(as.Lhs) {
+								dep = dep || dependsOn(as.Rhs[i], depth+1, seen)
+							} else if len(as.Rhs) == 1 {
+								dep = dep || dependsOn(as.Rhs[0], depth+1, seen)
+							}
+						}
+					}
+				}
+				return !dep
+			})
+			return !dep
+		})
+		return dep
+	}
+	named := map[types.Object]bool{}
+	for i := 0; i < sig.Results().Len(); i++ {
+		if v := sig.Results().At(i); v.Name() != "" {
+			named[v] = true
+		}
+	}
+	for _, v := range vals {
+		cv := constant.MakeInt64(v)
+		atom := func(e ast.Expr) (constant.Value, bool) {
+			if identObj(info, e) == ipd {
+				return cv, true
+			}
+			// conversions of the parameter
+			if cx, ok := e.(*ast.CallExpr); ok && len(cx.Args) == 1 {
+				if tv, isT := info.Types[cx.Fun]; isT && tv.IsType() && identObj(info, cx.Args[0]) == ipd {
+					return cv, true
+				}
+			}
+			return nil, false
+		}
+		r := s.Run(Query{WholeFacts: true, Exempt: func(f []Fact) bool { return infeasibleUnder(info, f, atom) },
+			Target: func(sub, top ast.Node) bool { _, ok := sub.(*ast.ReturnStmt); return ok }})
+		bad := ""
+		for _, h := range r.Hits {
+			rs := h.Node.(*ast.ReturnStmt)
+			dep := false
+			if len(rs.Results) == 0 {
+				for o := range named {
+					dep = dep || dependsOn(&ast.Ident{NamePos: rs.Pos(), Name: o.Name()}, 0, map[types.Object]bool{}) || namedDepends(s, info, o, ticks)
+				}
+			}
+			for _, e := range rs.Results {
+				dep = dep || dependsOn(e, 0, map[types.Object]bool{})
+			}
+			if !dep {
+				bad = h.Pos
+			}
+		}
+		c.Check(bad == "" && len(r.Hits) > 0, rule, s.Name, fmt.Sprintf("ticks-used:intervalsPerDay=%d", v), bad,
+			fmt.Sprintf("for intervalsPerDay = %d (a supported timeframe) every reachable return of the decoder depends on the ticks (%d return(s) reachable)", v, len(r.Hits)))
+	}
+}
+
+// namedDepends: some assignment to the named result o depends on the ticks parameter.
+func namedDepends(s *Scope, info *types.Info, o, ticks types.Object) bool {
+	dep := false
+	s.walk(func(m ast.Node) bool {
+		if as, ok := m.(*ast.AssignStmt); ok {
+			for i, l := range as.Lhs {
+				if identObj(info, l) == o && i < len(as.Rhs) && mentionsDeep(s, info, as.Rhs[i], ticks, 0) {
+					dep = true
+				}
+			}
+		}
+		return !dep
+	})
+	return dep
+}
+
+func mentionsDeep(s *Scope, info *types.Info, e ast.Node, target types.Object, depth int) bool {
+	if depth > 6 {
+		return false
+	}
+	if mentions(info, e, target) {
+		return true
+	}
+	hit := false
+	walkAll(e, func(m ast.Node) bool {
+		id, ok := m.(*ast.Ident)
+		if !ok || hit {
+			return !hit
+		}
+		o := objOf(info, id)
+		if _, isVar := o.(*types.Var); !isVar {
+			return true
+		}
+		s.walk(func(d ast.Node) bool {
+			if as, ok := d.(*ast.AssignStmt); ok {
+				for i, l := range as.Lhs {
+					if identObj(info, l) == o && i < len(as.Rhs) && as.Rhs[i] != e && mentionsDeep(s, info, as.Rhs[i], target, depth+1) {
+						hit = true
+					}
+				}
+			}
+			return !hit
+		})
+		return !hit
+	})
+	return hit
+}
+
+// R13.6 — projecting one symbol's columns does not disturb the next: the methods of ColumnSeries /
+// ColumnSeriesMap that take a list of column names do not write through that parameter (no
+// element assignment, no `p[:0]` / `p[:k]` re-slice that is then appended to). FilterColumns hands
+// the same list to Project for every symbol of a multi-symbol query.
+func ruleNameListParameterNotMutated(c *Ctx) {
+	const rule = "R13.6"
+	n := 0
+	for _, fn := range c.P.NonTestFuncs() {
+		if fn.PkgShort() != "utils/io" || fn.Decl.Body == nil || fn.Decl.Recv == nil {
+			continue
+		}
+		rn := recvName(fn)
+		if rn != "ColumnSeries" && rn != "ColumnSeriesMap" {
+			continue
+		}
+		info := fn.Pkg.TypesInfo
+		sig := fn.Obj.Type().(*types.Signature)
+		for i := 0; i < sig.Params().Len(); i++ {
+			sl, ok := sig.Params().At(i).Type().Underlying().(*types.Slice)
+			if !ok {
+				continue
+			}
+			if b, ok := sl.Elem().Underlying().(*types.Basic); !ok || b.Kind() != types.String {
+				continue
+			}
+			po := paramObjC(fn, i)
+			if po == nil {
+				continue
+			}
+			n++
+			// aliases of the parameter's backing array: x := p[:k]
+			alias := map[types.Object]bool{po: true}
+			var bad ast.Node
+			walkAll(fn.Decl.Body, func(m ast.Node) bool {
+				as, ok := m.(*ast.AssignStmt)
+				if !ok {
+					return true
+				}
+				for j, l := range as.Lhs {
+					if j < len(as.Rhs) {
+						if se, ok := unparen(as.Rhs[j]).(*ast.SliceExpr); ok && alias[identObj(info, se.X)] {
+							if o := identObj(info, l); o != nil {
+								alias[o] = true
+							}
+						}
+					}
+					// element assignment through the parameter / an alias
+					if ix, ok := unparen(l).(*ast.IndexExpr); ok && alias[identObj(info, ix.X)] && bad == nil {
+						bad = as
+					}
+				}
+				// x = append(x, …) with x an alias (not the parameter itself re-bound to a fresh slice)
+				if len(as.Rhs) == 1 {
+					if cx, ok := unparen(as.Rhs[0]).(*ast.CallExpr); ok && len(cx.Args) >= 1 {
+						if id, ok := unparen(cx.Fun).(*ast.Ident); ok && id.Name == "append" {
+							if o := identObj(info, cx.Args[0]); o != nil && alias[o] && o != po && bad == nil {
+								bad = as
+							}
+							if se, ok := unparen(cx.Args[0]).(*ast.SliceExpr); ok && alias[identObj(info, se.X)] && bad == nil {
+								bad = as
+							}
+						}
+					}
+				}
+				return true
+			})
+			c.Check(bad == nil, rule, fn.Key, "name-list-parameter-not-written:"+sig.Params().At(i).Name(), func() string {
+				if bad != nil {
+					return c.P.Pos(bad.Pos())
+				}
+				return c.P.Pos(fn.Decl.Pos())
+			}(), "the column-name list parameter `"+sig.Params().At(i).Name()+"` is only read (an in-place filter of it would change the list the caller reuses for the next symbol)")
+		}
+	}
+	c.Floor(rule, "utils/io", "ColumnSeries methods taking a list of names", n, 2)
+}
+
+// R14.6 — coercing a column keeps its position: CoerceColumnType cannot reach a function that
+// changes the column order (writes ColumnSeries.orderedNames). The writer serialises rows in the
+// series' own column order and stores them under the bucket's layout; a coerced column that moves
+// to the end shifts every value into a neighbouring column.
+func ruleCoercionKeepsColumnOrder(c *Ctx) {
+	const rule = "R14.6"
+	const anchor = "(*utils/io.ColumnSeries).CoerceColumnType"
+	if c.F(rule, anchor) == nil {
+		return
+	}
+	writers := map[string]bool{}
+	for _, st := range fieldWriteSites(c.P, "utils/io.ColumnSeries.orderedNames") {
+		writers[st.Fn.Key] = true
+	}
+	c.Floor(rule, "utils/io", "functions that change the column order", len(writers), 3)
+	g := c.P.CG()
+	path := g.PathTo(anchor, func(k string) bool { return writers[k] && k != anchor })
+	if writers[anchor] {
+		c.Violate(rule, anchor, "coercion-keeps-column-position", c.P.Pos(c.P.Funcs[anchor].Decl.Pos()), "CoerceColumnType itself rewrites the column order", nil)
+		return
+	}
+	if path != nil {
+		c.Violate(rule, anchor, "coercion-keeps-column-position", c.P.Pos(c.P.Funcs[anchor].Decl.Pos()),
+			"CoerceColumnType reaches "+path[len(path)-1]+", which changes the order of the columns: the coerced column no longer sits where the bucket's record layout expects it and the written values land in neighbouring columns", path)
+	} else {
+		c.Hold(rule, anchor, "coercion-keeps-column-position", c.P.Pos(c.P.Funcs[anchor].Decl.Pos()), fmt.Sprintf("replaces the column's values in place; none of the %d order-changing functions is reachable", len(writers)))
+	}
+}
+
+// R16.4 — a bucket that is not in the catalog is written only after it went through AddTimeBucket
+// (the only place that validates the key's items): in WriteCSM, on the failure edge of the catalog
+// lookup, WriteRecords is unreachable unless AddTimeBucket was called. A "the year file exists
+// already, skip the create" shortcut lets a `..` key write into a file outside the root.
+func ruleUncataloguedWriteValidated(c *Ctx) {
+	const rule = "R16.4"
+	s := c.S(rule, fnWriteCSM)
+	if s == nil {
+		return
+	}
+	n := 0
+	for _, site := range s.sites(callPred(s, "(*catalog.Directory).GetLatestTimeBucketInfoFromKey")) {
+		call := site.(*ast.CallExpr)
+		n++
+		r, ok := errEdgeQuery(s, call, s.topOf(call), callPred(s, fnWriteRecords), false)
+		if !ok {
+			c.Violate(rule, s.Name, "lookup-failure-handled", c.P.Pos(call.Pos()), "the result of the catalog lookup is not bound", nil)
+			continue
+		}
+		// re-run with the barrier: AddTimeBucket
+		obj, _ := assignedLastResult(s.Info, s.topOf(call), call)
+		q := Query{
+			Start:   func(sub, _ ast.Node) bool { return sub == ast.Node(call) },
+			Target:  callPred(s, fnWriteRecords),
+			Barrier: callPred(s, "(*catalog.Directory).AddTimeBucket"),
+			FailObj: obj,
+		}
+		r2 := s.Run(q)
+		_ = r
+		c.Floor(rule, s.Name, "AddTimeBucket call sites", r2.BarrierSites, 1)
+		c.reportHits(rule, s, "uncatalogued-bucket-created-before-write", r2,
+			"when the bucket is not in the catalog, records are queued only after AddTimeBucket (which validates the key) ran",
+			"records can be queued for a bucket that is not in the catalog without AddTimeBucket having validated its key: a key with `..` items is joined onto the root and an existing file outside the root is overwritten")
+	}
+	c.Floor(rule, s.Name, "catalog lookups", n, 1)
+}
+
+// R18.9 — the write-back buffer only ever holds bytes that were read from the file: the field
+// BufferedFile.buffer is allocated / assigned only inside readBuffer, and there every successful
+// exit after the allocation has passed ReadAt into it. A buffer that is pre-allocated elsewhere
+// (zero-filled, never read) is taken for the loaded contents of the file range it claims to cover
+// and is written back over it — for a batch that starts in the first block that is the year
+// file's header (schema lost after restart).
+func ruleWriteBackBufferIsRead(c *Ctx) {
+	const rule = "R18.9"
+	const fld = "executor/buffile.BufferedFile.buffer"
+	const owner = "(*executor/buffile.BufferedFile).readBuffer"
+	s := c.S(rule, owner)
+	if s == nil {
+		return
+	}
+	owned := c.P.GateDominated(map[string]bool{owner: true})
+	n := 0
+	for _, fn := range c.P.NonTestFuncs() {
+		if fn.PkgShort() != "executor/buffile" || fn.Decl.Body == nil {
+			continue
+		}
+		info := fn.Pkg.TypesInfo
+		walkAll(fn.Decl.Body, func(m ast.Node) bool {
+			var pos token.Pos
+			nonNil := false
+			switch x := m.(type) {
+			case *ast.AssignStmt:
+				for i, l := range x.Lhs {
+					if fieldKey(info, l) == fld {
+						pos = x.Pos()
+						if i < len(x.Rhs) && !isNilIdent(info, x.Rhs[i]) {
+							nonNil = true
+						}
+					}
+				}
+			case *ast.KeyValueExpr:
+				if id, ok := x.Key.(*ast.Ident); ok && id.Name == "buffer" {
+					if v, ok := info.ObjectOf(id).(*types.Var); ok && v.IsField() && !isNilIdent(info, x.Value) {
+						pos, nonNil = x.Pos(), true
+					}
+				}
+			}
+			if pos == token.NoPos || !nonNil {
+				return true
+			}
+			n++
+			c.Check(owned[fn.Key], rule, fn.Key, "buffer-assigned-only-where-it-is-read", c.P.Pos(pos),
+				"BufferedFile.buffer is given a (non-nil) value only in readBuffer, which fills it from the file; a buffer allocated elsewhere would be written back although it never held the file's bytes")
+			return true
+		})
+	}
+	c.Floor(rule, "executor/buffile", "assignments of BufferedFile.buffer", n, 1)
+	// inside readBuffer: after the buffer was (re)allocated, success is reported only after ReadAt
+	alloc := func(sub, top ast.Node) bool {
+		as, ok := sub.(*ast.AssignStmt)
+		if !ok {
+			return false
+		}
+		for i, l := range as.Lhs {
+			if fieldKey(s.Info, l) == fld && i < len(as.Rhs) {
+				if cx, ok := unparen(as.Rhs[i]).(*ast.CallExpr); ok {
+					if id, ok := unparen(cx.Fun).(*ast.Ident); ok && id.Name == "make" {
+						return true
+					}
+				}
+			}
+		}
+		return false
+	}
+	read := func(sub, top ast.Node) bool {
+		cx, ok := sub.(*ast.CallExpr)
+		return ok && strings.HasSuffix(CalleeName(s.Info, cx), ".ReadAt") && mentionsField(s.Info, cx.Fun, "executor/buffile.BufferedFile.fp")
+	}
+	r := s.Run(Query{Start: alloc, Barrier: read, ExitIsTarget: true, OnlyNilErrorReturns: true})
+	c.reportHits(rule, s, "allocated-buffer-is-filled-from-the-file", r, "every successful exit of readBuffer after the allocation passed fp.ReadAt(buffer, …)", "readBuffer can succeed with a freshly allocated buffer that was not filled from the file")
+	// and the bookkeeping offset is set together with the read
+	okOff := false
+	s.walk(func(m ast.Node) bool {
+		if as, ok := m.(*ast.AssignStmt); ok {
+			for _, l := range as.Lhs {
+				if fieldKey(s.Info, l) == "executor/buffile.BufferedFile.bufferOffset" {
+					okOff = true
+				}
+			}
+		}
+		return true
+	})
+	c.Check(okOff, rule, s.Name, "offset-recorded-with-the-read", c.P.Pos(s.Body.Pos()), "readBuffer records which file range the buffer holds")
 }
